@@ -333,6 +333,15 @@ class Plumbing:
                         if p is not None and key is not None:
                             record(p, Storage("csv", key, u.value, f"{w} for {src(gen.target)} in {src(gen.iter)}", u))
                             continue
+                    elif isinstance(u, (ast.GeneratorExp, ast.ListComp)) and len(u.generators) == 1 and not u.generators[0].ifs \
+                            and isinstance(u.elt, ast.Tuple) and len(u.elt.elts) == 2:
+                        # `d.update((key(d), value(d)) for d in <iter>)`: the pair form of the same thing
+                        gen = u.generators[0]
+                        key = _str_const(u.elt.elts[0], env)
+                        p, w = classify_value(u.elt.elts[1])
+                        if p is not None and key is not None:
+                            record(p, Storage("csv", key, u.elt.elts[1], f"{w} for {src(gen.target)} in {src(gen.iter)}", u))
+                            continue
                     elif isinstance(u, ast.Dict) and all(k is not None for k in u.keys):
                         good = True
                         for k, v in zip(u.keys, u.values):
